@@ -498,7 +498,7 @@ async def reconnect_case(ctx, first_end: str, stream: bytes, writes: list[str], 
 
 
 async def backpressure_case(ctx, n_writers: int, line_size: int, seed: int, transport=None, port: int = 0, loops: int = 1,
-                            base_seed: int | None = None):
+                            base_seed: int | None = None, cancel_blocked: bool = False):
     """Outgoing back-pressure on a real TCP connection: the peer does not read until hundreds of kB are backed up, several
     tasks call write() concurrently, then the peer drains.  The bytes at the peer must be the lines in the order the
     write() CALLS were made (every call is stamped before it is awaited).  With `transport` given, the SAME transport
@@ -512,7 +512,9 @@ async def backpressure_case(ctx, n_writers: int, line_size: int, seed: int, tran
     start_reading = asyncio.Event()
     done = asyncio.Event()
     case = {"engine": "tcp-backpressure", "writers": n_writers, "line_size": line_size, "seed": seed, "loops": loops,
-            "base_seed": seed if base_seed is None else base_seed}
+            "base_seed": seed if base_seed is None else base_seed, "cancel_blocked": cancel_blocked}
+    in_flight: dict[int, str] = {}
+    cancelled_lines: set[str] = set()
 
     async def handler(reader, writer) -> None:
         try:
@@ -546,11 +548,17 @@ async def backpressure_case(ctx, n_writers: int, line_size: int, seed: int, tran
             for j in range(rng.randint(3, 8)):
                 line = f"{index};{j};" + "x" * rng.choice([10, line_size, line_size // 3]) + "\n"
                 calls.append(line)  # stamped at call time
+                in_flight[index] = line
                 try:
                     await transport.write(line)
+                except asyncio.CancelledError:
+                    cancelled_lines.add(line)  # the application gave up on this call: its line may or may not go out
+                    return
                 except Exception as exc:  # noqa: BLE001 - nothing fails on this connection
                     failures.append(f"{type(exc).__name__}: {exc!s:.80}")
                     return
+                finally:
+                    in_flight.pop(index, None)
                 if rng.random() < 0.5:
                     await asyncio.sleep(0)
 
@@ -560,12 +568,23 @@ async def backpressure_case(ctx, n_writers: int, line_size: int, seed: int, tran
         late = [asyncio.ensure_future(writer_task(100 + i)) for i in range(n_writers)]
         for _ in range(rng.randint(0, 30)):
             await asyncio.sleep(0)
+        if cancel_blocked:
+            # the application gives up on some of the write() calls that are blocked by the peer (round 15): what the
+            # OTHER calls put on the stream, before and after, must not change
+            by_index = dict(zip([*range(n_writers), *range(100, 100 + n_writers)], [*tasks, *late]))
+            blocked = [i for i in in_flight if i in by_index and not by_index[i].done()]
+            victims = blocked[:1] + [i for i in blocked[1:] if rng.random() < 0.3]
+            for i in victims:
+                by_index[i].cancel()
+            ctx.obs("blocked-writes-cancelled", len(victims))
+            for _ in range(rng.randint(1, 5)):
+                await asyncio.sleep(0)
         start_reading.set()
         # more writers arrive exactly while the stream resumes
         for i in range(10):
             await asyncio.sleep(0)
             tasks.append(asyncio.ensure_future(writer_task(200 + i)))
-        await asyncio.wait_for(asyncio.gather(*tasks, *late), 60)
+        await asyncio.wait_for(asyncio.gather(*tasks, *late, return_exceptions=True), 60)
         await transport.disconnect()
         await asyncio.wait_for(done.wait(), 30)
     finally:
@@ -577,6 +596,24 @@ async def backpressure_case(ctx, n_writers: int, line_size: int, seed: int, tran
     if failures:
         ctx.violation("write-fails-without-io-error", f"{len(failures)} of the concurrent writes under back-pressure raised although "
                                                       f"the connection never failed: {failures[0]}", case)
+    elif cancel_blocked:
+        ctx.clause("write-order-around-cancelled-writes")
+        got = bytes(received).decode("utf-8", "replace").split("\n")
+        got_lines = [g + "\n" for g in got[:-1]] + ([got[-1]] if got[-1] else [])
+        position = 0
+        for line in calls:
+            if position < len(got_lines) and got_lines[position] == line:
+                position += 1
+            elif line not in cancelled_lines:
+                key = "writes-reordered" if line in got_lines else "written-bytes-differ"
+                ctx.violation(key, f"a blocked write() was cancelled; the line of call {line[:20]!r}... (not cancelled) is "
+                                   f"{'out of call order' if line in got_lines else 'missing'} at the peer (position {position}, "
+                                   f"{len(got_lines)} lines received, {len(calls)} calls, {len(cancelled_lines)} cancelled)", case)
+                break
+        else:
+            if position != len(got_lines):
+                ctx.violation("written-bytes-differ", f"the peer received {len(got_lines) - position} lines beyond the write() "
+                                                      f"calls made (first {got_lines[position][:30]!r})", case)
     elif bytes(received) != want:
         got_lines = bytes(received).decode("utf-8", "replace").split("\n")
         want_lines = "".join(calls).split("\n")
@@ -1529,7 +1566,8 @@ def run_case(ctx, case: dict) -> None:
         if case.get("loops", 1) > 1:
             two_loop_backpressure(ctx, case["writers"], case["line_size"], case["base_seed"], case["loops"])
         else:
-            arun(backpressure_case(ctx, case["writers"], case["line_size"], case["seed"]))
+            arun(backpressure_case(ctx, case["writers"], case["line_size"], case["seed"],
+                                   cancel_blocked=case.get("cancel_blocked", False)))
     elif case.get("engine") == "tcp-reconnect":
         arun(reconnect_case(ctx, case["first_end"], bytes.fromhex(case["stream"]), case["writes"],
                             case.get("disconnect_between", True)))
@@ -1638,6 +1676,8 @@ def run(ctx) -> None:
             for i in range(ctx.pick(12, 300) // ctx.shard_count + 1):
                 arun(backpressure_case(ctx, rng.choice([2, 3, 5, 8]), rng.choice([2000, 20000, 70000]),
                                        ctx.seed * 100000 + ctx.shard_index * 1000 + i))
+                arun(backpressure_case(ctx, rng.choice([2, 3, 5, 8]), rng.choice([2000, 20000, 70000]),
+                                       ctx.seed * 100000 + ctx.shard_index * 1000 + 500 + i, cancel_blocked=True))
             from .. import codedict
 
             for i, (quiet_s, pending) in enumerate([(35, False), (35, True), (65, False), (320, True), (3700, False),
@@ -1704,5 +1744,6 @@ def run(ctx) -> None:
                     writes = length_sweep_writes(rng)
                 arun(serial_case(ctx, stream, sizes, writes))
     reach.into(ctx)
-    for clause in ("reads-vs-reference", "bytes-at-peer", "use-before-connect", "disconnect-absorbs-os-errors"):
+    for clause in ("reads-vs-reference", "bytes-at-peer", "use-before-connect", "disconnect-absorbs-os-errors",
+                   "write-order-around-cancelled-writes"):
         ctx.require(clause, 4)
